@@ -194,3 +194,139 @@ pub fn count_net_kind(out: &mut CaseOut, world: &World) {
         out.count("net_many_colours");
     }
 }
+
+use crate::libg::ExplicitSet;
+use std::collections::HashMap;
+
+/// Build the library-side context map from explicit sets.
+pub fn lib_context(world: &World, sys: &Sys, sets: &HashMap<String, ExplicitSet>) -> LabelToSetMap {
+    sets.iter().map(|(k, v)| (k.clone(), crate::world::to_lib_set(world, sys, v))).collect()
+}
+
+pub fn sets_json(world: &World, sets: &HashMap<String, ExplicitSet>) -> J {
+    let mut items: Vec<(String, J)> = sets.iter().map(|(k, v)| (k.clone(), crate::world::explicit_describe(world, v))).collect();
+    items.sort_by(|a, b| a.0.cmp(&b.0));
+    J::Obj(items)
+}
+
+/// Run `f` through the given entry points and compare every result with the explicit oracle
+/// (valid colours only). On a mismatch / error / panic the case is marked violated and `None`
+/// is returned; otherwise the oracle's answer is returned. An oracle budget overrun marks the
+/// case inconclusive.
+pub fn check_against_oracle(
+    out: &mut CaseOut,
+    world: &World,
+    sys: &Sys,
+    f: &F,
+    sets: &HashMap<String, ExplicitSet>,
+    ctx: &LabelToSetMap,
+    eps: &[Ep],
+    budget: u64,
+) -> Option<ExplicitSet> {
+    let text = f.canon();
+    let expected = match world.oracle(f, sets, budget) {
+        Ok(e) => e,
+        Err(e) => {
+            out.inconclusive(&format!("oracle: {e:?}").chars().take(24).collect::<String>());
+            return None;
+        }
+    };
+    out.add("states_x_colours_compared", (world.num_states() * world.valid_colours()) as u64 * eps.len() as u64);
+    for ep in eps {
+        let book = if ep.sanitized() { &sys.canon_book } else { &sys.book };
+        match run_ep(*ep, &text, sys, ctx) {
+            Call::Ok(set) => {
+                out.count("entry_point_calls");
+                if let Some(diff) = world.compare(book, &set, &expected) {
+                    let events = drain_events(out);
+                    out.violate(
+                        "mismatch with oracle",
+                        format!("{} on `{}`: {}", ep.name(), text, diff),
+                        case_json(
+                            world,
+                            &[text.clone()],
+                            vec![("entry_point", J::s(ep.name())), ("context_sets", sets_json(world, sets)), ("difference", J::s(&diff)), ("events", events_json(&events))],
+                        ),
+                    );
+                    return None;
+                }
+            }
+            Call::Err(e) => {
+                out.violate(
+                    "error on a valid closed formula",
+                    format!("{} returned Err({e}) on `{text}`", ep.name()),
+                    case_json(world, &[text.clone()], vec![("entry_point", J::s(ep.name())), ("error", J::s(&e))]),
+                );
+                return None;
+            }
+            Call::Panic(p) => {
+                let events = drain_events(out);
+                out.violate(
+                    &libg::panic_signature(&p),
+                    format!("{} panicked on `{text}`: {p}", ep.name()),
+                    case_json(
+                        world,
+                        &[text.clone()],
+                        vec![("entry_point", J::s(ep.name())), ("context_sets", sets_json(world, sets)), ("panic", J::s(&p)), ("events", events_json(&events))],
+                    ),
+                );
+                return None;
+            }
+        }
+    }
+    Some(expected)
+}
+
+/// Evaluate several formula texts (raw results) and report the first pair of positions whose
+/// results differ after intersection with the unit set; used by the metamorphic monitors.
+pub fn eval_raw(sys: &Sys, text: &str, ctx: &LabelToSetMap) -> Call<GraphColoredVertices> {
+    run_ep(Ep::ExtendedDirty, text, sys, ctx)
+}
+
+pub fn discard(world: &World, e: &str) -> CaseOut {
+    let mut out = CaseOut::new(format!("discard-{e}"));
+    if e.starts_with("PANIC") {
+        out.violate(&libg::panic_signature(e), format!("panic while building the graph: {e}"), world.describe());
+    } else {
+        out.count("discarded_network");
+        out.inconclusive("network rejected by graph construction");
+    }
+    out
+}
+
+pub fn build(world: &World, k: u16) -> Result<Sys, String> {
+    if world.valid_colours() == 0 && world.cs.exhaustive {
+        return Err("no valid colour (harness)".to_string());
+    }
+    libg::guarded(|| libg::build_sys(&world.net, k, &world.cs.bits)).map_err(|p| format!("PANIC {p}"))?
+}
+
+/// Report a violated metamorphic equation between two raw results.
+pub fn violate_diff(
+    out: &mut CaseOut,
+    world: &World,
+    sys: &Sys,
+    signature: &str,
+    left: (&str, &GraphColoredVertices),
+    right: (&str, &GraphColoredVertices),
+    extra: Vec<(&str, J)>,
+) {
+    use biodivine_lib_param_bn::biodivine_std::traits::Set;
+    let unit = sys.graph.unit_colored_vertices();
+    let only_left = left.1.intersect(unit).minus(right.1);
+    let only_right = right.1.intersect(unit).minus(left.1);
+    let mut items = vec![
+        ("left", J::s(left.0)),
+        ("right", J::s(right.0)),
+        ("left_cardinality", J::Num(left.1.approx_cardinality())),
+        ("right_cardinality", J::Num(right.1.approx_cardinality())),
+        ("only_in_left", J::Num(only_left.approx_cardinality())),
+        ("only_in_right", J::Num(only_right.approx_cardinality())),
+    ];
+    items.extend(extra);
+    out.violate(
+        signature,
+        format!("`{}` and `{}` must denote the same set but differ ({} vs {} elements)", left.0, right.0, left.1.approx_cardinality(), right.1.approx_cardinality()),
+        case_json(world, &[left.0.to_string(), right.0.to_string()], items),
+    );
+}
